@@ -40,7 +40,7 @@ translator already understands, plus three small overrides.  What it adds, and h
     used so far becomes a leading parameter of the loop definition and of its calls).
   * `assert(c)` (glibc expansion: a statement expression calling `__assert_fail`): the value function ignores it,
     the definedness function requires `c` (a failing assertion is not a defined execution);
-  * `"effects": {"g": [(field, arity, term), ...]}`: a call `g(p)` of an UNTRANSLATED function is replaced by its
+  * `"effects": {"g": [(field, arity, term, C type), ...]}`: a call `g(p)` of an UNTRANSLATED function is replaced by its
     STATED effect on the object behind `p`: each listed field family of `p` is rebound to the given Lean term (written
     over the old family names); nothing else changes, no definedness condition is added.  This is an ASSUMPTION about
     `g` made by the registry entry, not derived from g's text (used for `ep_linearize`: allocation + memcpy/memmove).
@@ -489,9 +489,9 @@ class FnXlate15(c2lean.FnXlate):
             p = self.ptr(m["inner"][1])
             if p.off is not None or p.idx:
                 self.err(n, f"argument of effect call `{name}` is not a plain base pointer")
-            for field, arity, term in self.effects[name]:
+            for field, arity, term, tname in self.effects[name]:
                 comps = p.fam + (field,)
-                f = self.fam(comps, arity, Ty("int", True, 32, "int"), n, self.rootkey(comps))
+                f = self.fam(comps, arity, parse_type({"qualType": tname}), n, self.rootkey(comps))
                 f.written = True
                 self.used_fams.add(f.comps)
                 self.written_here.add(f.comps)
